@@ -431,8 +431,12 @@ Proof.
     inversion H; subst. apply do_element_shape in He. apply IH in Hr.
     destruct He as (A1 & _ & A2 & A3 & A4 & A5). destruct Hr as (B1 & B2 & B3 & B4 & B5).
     unfold names_els, imports_els, cnames_els in *. cbn [map flat_map fst].
-    rewrite A1, B1, B2, A2, B5, A5, fresh_app, A3, <- A2, B3, <- !app_assoc.
-    rewrite (fold_imp_app _ _ _ _ _ A4), B4. repeat split; reflexivity.
+    repeat split.
+    + now rewrite A1, B1.
+    + now rewrite B2, A2, <- app_assoc.
+    + now rewrite fresh_app, A3, <- A2, B3.
+    + rewrite (fold_imp_app _ _ _ _ _ A4). exact B4.
+    + now rewrite B5, A5, <- app_assoc.
 Qed.
 
 Definition sec_fun (v : variant) (path : list string) (sec : label * list element) (s : cstate * lst) :=
@@ -458,9 +462,13 @@ Proof.
     inversion H; subst. apply do_elements_shape in He. apply IH in Hr.
     destruct He as (A1 & A2 & A3 & A4 & A5). destruct Hr as (B1 & B2 & B3 & B4 & B5).
     unfold all_els, names_els, imports_els, cnames_els in *. cbn [map flat_map fst snd].
-    rewrite !flat_map_app. fold (names_els els) (imports_els els) (cnames_els els).
-    rewrite A1, B1, B2, A2, B5, A5, fresh_app, A3, <- A2, B3, <- !app_assoc.
-    rewrite (fold_imp_app _ _ _ _ _ A4), B4. repeat split; reflexivity.
+    rewrite !flat_map_app.
+    repeat split.
+    + now rewrite A1, B1.
+    + now rewrite B2, A2, <- app_assoc.
+    + now rewrite fresh_app, A3, <- A2, B3.
+    + rewrite (fold_imp_app _ _ _ _ _ A4). exact B4.
+    + now rewrite B5, A5, <- app_assoc.
 Qed.
 
 (* erasing commutes with the visibility assignment *)
@@ -477,8 +485,309 @@ Qed.
 Lemma eff_vis_map {X Y : Type} v (f : X -> Y) (S : list (label * X)) :
   eff_vis v (map (fun s => (fst s, f (snd s))) S) = eff_vis v S.
 Proof.
-  induction S as [|[lb x] r IH]; [reflexivity|]. cbn [map eff_vis fst snd]. rewrite IH. f_equal.
+  induction S as [|[lb x] r IH]; [reflexivity|]. cbn [map eff_vis fst snd]. rewrite IH. clear IH. f_equal.
   assert (H : forall lb', has_label lb' (map (fun s : label * X => (fst s, f (snd s))) r) = has_label lb' r).
-  { intros lb'. unfold has_label. rewrite existsb_map_compat. reflexivity. }
+  { intros lb'. unfold has_label. induction r as [|[l0 x0] r0 IHr]; [reflexivity|]. cbn [map existsb fst snd]. now rewrite IHr. }
   now rewrite !H.
+Qed.
+
+Definition sec_syms (v : variant) (vs : vis) (els : list element) : list osym :=
+  flat_map (fun e => match e with EComp cl => map (spec_sym v vs cl) (c_decls cl) | _ => [] end) els.
+Definition sec_exts (vs : vis) (els : list element) : list oext :=
+  flat_map (fun e => match e with EExt p m => [mkE p vs (conv_args m)] | _ => [] end) els.
+Fixpoint class_syms_aux (v : variant) (vs : list vis) (secs : list (label * list element)) : list osym :=
+  match vs, secs with v1 :: vr, (_, els) :: r => sec_syms v v1 els ++ class_syms_aux v vr r | _, _ => [] end.
+Fixpoint class_exts_aux (vs : list vis) (secs : list (label * list element)) : list oext :=
+  match vs, secs with v1 :: vr, (_, els) :: r => sec_exts v1 els ++ class_exts_aux vr r | _, _ => [] end.
+(* the symbol table / extends list a class text declares: every declarator of every component clause, in
+   source order, with the effective visibility of its section *)
+Definition class_syms (v : variant) (secs : list (label * list element)) : list osym :=
+  class_syms_aux v (eff_vis v secs) secs.
+Definition class_exts (v : variant) (secs : list (label * list element)) : list oext :=
+  class_exts_aux (eff_vis v secs) secs.
+
+Lemma syms_of_erase rs : map erase_sym (syms_of rs) = syms_of (map erase_res rs).
+Proof.
+  unfold syms_of. induction rs as [|r rs IH]; [reflexivity|]. cbn [flat_map map]. rewrite map_app, IH.
+  destruct r; reflexivity.
+Qed.
+Lemma exts_of_erase rs : exts_of (map erase_res rs) = exts_of rs.
+Proof.
+  unfold exts_of. induction rs as [|r rs IH]; [reflexivity|]. cbn [flat_map map]. rewrite IH. destruct r; reflexivity.
+Qed.
+Lemma syms_of_app a b : syms_of (a ++ b) = syms_of a ++ syms_of b.
+Proof. unfold syms_of. apply flat_map_app. Qed.
+Lemma exts_of_app a b : exts_of (a ++ b) = exts_of a ++ exts_of b.
+Proof. unfold exts_of. apply flat_map_app. Qed.
+
+Lemma syms_of_spec v v1 els : syms_of (map (set_vis_res v1) (map (spec_res v) els)) = sec_syms v v1 els.
+Proof.
+  unfold syms_of, sec_syms. induction els as [|e r IH]; [reflexivity|]. cbn [map flat_map]. rewrite IH. f_equal.
+  destruct e; cbn; try reflexivity. rewrite map_map. apply map_ext. reflexivity.
+Qed.
+Lemma exts_of_spec v v1 els : exts_of (map (set_vis_res v1) (map (spec_res v) els)) = sec_exts v1 els.
+Proof.
+  unfold exts_of, sec_exts. induction els as [|e r IH]; [reflexivity|]. cbn [map flat_map]. rewrite IH. f_equal.
+  destruct e; reflexivity.
+Qed.
+
+Lemma apply_vis_class v secs : forall vs,
+  syms_of (concat (apply_vis vs (map (fun s => (fst s, map (spec_res v) (snd s))) secs))) = class_syms_aux v vs secs
+  /\ exts_of (concat (apply_vis vs (map (fun s => (fst s, map (spec_res v) (snd s))) secs))) = class_exts_aux vs secs.
+Proof.
+  induction secs as [|[lb els] r IH]; intros [|v1 vr]; try (split; reflexivity).
+  cbn [map apply_vis concat fst snd class_syms_aux class_exts_aux].
+  rewrite syms_of_app, exts_of_app, syms_of_spec, exts_of_spec. destruct (IH vr) as [A B]. now rewrite A, B.
+Qed.
+
+Lemma erased_private v e r : erase_res r = spec_res v e -> res_private r.
+Proof.
+  destruct r as [ss|x|]; destruct e; cbn; try discriminate; try exact (fun _ => I).
+  - intros H. injection H as H. revert H. generalize (c_decls c). induction ss as [|s ss IH]; intros [|d ds] H; try discriminate; constructor.
+    + cbn [map] in H. pose proof (f_equal (hd s) H) as H1. cbn [hd] in H1.
+      apply (f_equal s_vis) in H1. exact H1.
+    + apply (IH ds). cbn [map] in H. exact (f_equal (@tl _) H).
+  - intros H. injection H as H. now subst.
+Qed.
+
+Lemma erased_private_list v els : forall rs, map erase_res rs = map (spec_res v) els -> Forall res_private rs.
+Proof.
+  induction els as [|e r IH]; intros [|x xs] H; try discriminate; constructor.
+  - cbn [map] in H. apply (erased_private v e). exact (f_equal (hd x) H).
+  - apply IH. exact (f_equal (@tl _) H).
+Qed.
+
+Theorem class_ok v path ct n cm secs eqs algs k l r cls k' l' :
+  do_element v path (ECls ct n cm secs eqs algs) (k, l) = Ok ((r, cls), (k', l')) ->
+  exists own nested, cls = own :: nested
+  /\ o_path own = path ++ [n] /\ o_ctype own = ct /\ o_comment own = cm
+  /\ map erase_sym (o_syms own) = class_syms v secs
+  /\ o_exts own = class_exts v secs
+  /\ fold_imp v (imports_els (all_els secs)) [] = Ok (o_imports own)
+  /\ o_classes own = cnames_els (all_els secs)
+  /\ o_eqs own = sel false eqs /\ o_ieqs own = sel true eqs
+  /\ o_sts own = sel false algs /\ o_ists own = sel true algs
+  /\ fresh [] (names_els (all_els secs)) = true
+  /\ k_classes k' = k_classes k ++ [n] /\ k_seen k' = k_seen k /\ k_imports k' = k_imports k.
+Proof.
+  cbn [do_element]. fold (sec_fun v (path ++ [n])). intros H.
+  destruct (mapM (sec_fun v (path ++ [n])) secs (mkK [] [] [], l)) as [[srs [k1 l1]]|] eqn:Hm; [|discriminate].
+  inversion H; subst. clear H. apply do_sections_shape in Hm. cbn [k_seen k_imports k_classes app] in Hm.
+  destruct Hm as (A1 & A2 & A3 & A4 & A5).
+  eexists; eexists; split; [reflexivity|].
+  unfold finish_class. rewrite !split_init_spec. cbn [o_path o_ctype o_comment o_syms o_exts o_imports o_classes o_eqs o_ieqs o_sts o_ists k_classes k_seen k_imports].
+  set (srs' := map (fun s : label * list (ores * list oclass) => (fst s, map fst (snd s))) srs).
+  assert (E : map (fun s : label * list ores => (fst s, map erase_res (snd s))) srs'
+              = map (fun s => (fst s, map (spec_res v) (snd s))) secs).
+  { subst srs'. rewrite map_map. cbn [fst snd]. exact A1. }
+  assert (Hp : Forall (fun s : label * list ores => Forall res_private (snd s)) srs').
+  { clear -E. revert secs E. induction srs' as [|[lb rs] r IH]; intros [|[lb' els] secs] E; try discriminate; constructor.
+    - cbn [map fst snd] in E. pose proof (f_equal (hd (lb, [])) E) as H1. cbn [hd] in H1. injection H1 as _ H1.
+      cbn [snd]. eapply erased_private_list; eauto.
+    - apply (IH secs). exact (f_equal (@tl _) E). }
+  rewrite (assign_vis_spec v srs' Hp).
+  assert (Ev : eff_vis v srs' = eff_vis v secs).
+  { rewrite <- (eff_vis_map v (map erase_res) srs'), E, (eff_vis_map v (map (spec_res v)) secs). reflexivity. }
+  rewrite Ev.
+  destruct (apply_vis_class v secs (eff_vis v secs)) as [S1 S2].
+  repeat split; try assumption; try reflexivity.
+  - rewrite syms_of_erase, concat_map, apply_vis_erase, E. exact S1.
+  - rewrite <- exts_of_erase, concat_map, apply_vis_erase, E. exact S2.
+Qed.
+
+(* ------------------------------------------------------------------------------------------ *)
+(* duplicates                                                                                 *)
+(* ------------------------------------------------------------------------------------------ *)
+Lemma mem_In x l : mem x l = true <-> In x l.
+Proof.
+  unfold mem. rewrite existsb_exists. split.
+  - intros (y & Hy & E). apply String.eqb_eq in E. now subst.
+  - intros H. exists x. split; [assumption|apply String.eqb_refl].
+Qed.
+
+Lemma fresh_NoDup ns : forall seen,
+  fresh seen ns = true <-> (NoDup ns /\ forall x, In x ns -> ~ In x seen).
+Proof.
+  induction ns as [|x r IH]; intros seen; cbn [fresh].
+  - split; [intros _; split; [constructor|intros ? []]|reflexivity].
+  - rewrite andb_true_iff, negb_true_iff, (IH (seen ++ [x])). split.
+    + intros (Hm & Hn & Hd). assert (Hx : ~ In x seen) by (rewrite <- mem_In; congruence). split.
+      * constructor; [|assumption]. intros Hi. apply (Hd x Hi). apply in_or_app. right. now left.
+      * intros y [<-|Hy]; [assumption|]. intros Hs. apply (Hd y Hy). apply in_or_app. now left.
+    + intros (Hn & Hd). inversion Hn; subst. split; [|split; [assumption|]].
+      * destruct (mem x seen) eqn:E; [|reflexivity]. apply mem_In in E. exfalso. apply (Hd x); [now left|assumption].
+      * intros y Hy Hs. apply in_app_or in Hs. destruct Hs as [Hs|[<-|[]]]; [apply (Hd y); [now right|assumption]|contradiction].
+Qed.
+
+Theorem class_duplicate v path ct n cm secs eqs algs st :
+  ~ NoDup (names_els (all_els secs)) -> exists e, do_element v path (ECls ct n cm secs eqs algs) st = Err e.
+Proof.
+  intros Hn. destruct st as [k l].
+  destruct (do_element v path (ECls ct n cm secs eqs algs) (k, l)) as [[[r cls] [k' l']]|e] eqn:H; [|eauto].
+  apply class_ok in H. destruct H as (own & nested & _ & _ & _ & _ & _ & _ & _ & _ & _ & _ & _ & _ & Hf & _).
+  apply fresh_NoDup in Hf. destruct Hf as [Hf _]. contradiction.
+Qed.
+
+Lemma sec_syms_names v vs els : map s_name (sec_syms v vs els) = names_els els.
+Proof.
+  unfold sec_syms, names_els. induction els as [|e r IH]; [reflexivity|]. cbn [flat_map]. rewrite map_app, IH. f_equal.
+  destruct e; cbn; try reflexivity. rewrite map_map. reflexivity.
+Qed.
+
+Lemma class_syms_names v secs : map s_name (class_syms v secs) = names_els (all_els secs).
+Proof.
+  unfold class_syms. induction secs as [|[lb els] r IH]; [reflexivity|].
+  cbn [eff_vis class_syms_aux all_els flat_map snd]. unfold names_els in *. rewrite map_app, flat_map_app.
+  f_equal; [apply sec_syms_names|exact IH].
+Qed.
+
+Lemma erase_name l : map s_name (map erase_sym l) = map s_name l.
+Proof. rewrite map_map. apply map_ext. reflexivity. Qed.
+
+Theorem class_names_nodup v path ct n cm secs eqs algs st r own nested st' :
+  do_element v path (ECls ct n cm secs eqs algs) st = Ok ((r, own :: nested), st') ->
+  map s_name (o_syms own) = names_els (all_els secs) /\ NoDup (map s_name (o_syms own)).
+Proof.
+  destruct st as [k l], st' as [k' l']. intros H. apply class_ok in H.
+  destruct H as (own' & nested' & E & _ & _ & _ & Hs & _ & _ & _ & _ & _ & _ & _ & Hf & _).
+  injection E as <- <-.
+  assert (Hn : map s_name (o_syms own) = names_els (all_els secs))
+    by (rewrite <- erase_name, Hs; apply class_syms_names).
+  split; [exact Hn|]. rewrite Hn. apply fresh_NoDup in Hf. tauto.
+Qed.
+
+(* ------------------------------------------------------------------------------------------ *)
+(* the ideal reading: with the repairs (or on texts that do not reach the defects) the           *)
+(* effective visibility is the section label and the dimensions are declarator ++ clause       *)
+(* ------------------------------------------------------------------------------------------ *)
+Fixpoint labels_once {X : Type} (secs : list (label * X)) : bool :=
+  match secs with
+  | [] => true
+  | (lb, _) :: r => (match lb with Unl => true | _ => negb (has_label lb r) end) && labels_once r
+  end.
+
+Lemma eff_vis_ideal {X : Type} v (secs : list (label * X)) :
+  v_allsec v = true \/ labels_once secs = true -> eff_vis v secs = map (fun s => vis_of_label (fst s)) secs.
+Proof.
+  intros H. induction secs as [|[lb x] r IH]; [reflexivity|]. cbn [eff_vis map fst].
+  destruct H as [H|H].
+  - rewrite H, IH; auto.
+  - cbn [labels_once] in H. apply andb_true_iff in H. destruct H as [H1 H2]. rewrite IH by auto. f_equal.
+    destruct (v_allsec v); [reflexivity|]. destruct lb; [reflexivity| |]; apply negb_true_iff in H1; now rewrite H1.
+Qed.
+
+Definition ideal_dims (cl : clause) (d : declr) : list (list expr) :=
+  match c_dims cl, d_dims d with
+  | None, None => default_dims
+  | _, _ => [match d_dims d with Some o => o | None => [] end ++ match c_dims cl with Some c => c | None => [] end]
+  end.
+Lemma spec_dims_ideal v cl d :
+  v_dimsmerge v = true \/ c_dims cl = None \/ d_dims d = None -> spec_dims v cl d = ideal_dims cl d.
+Proof.
+  unfold spec_dims, ideal_dims. destruct (c_dims cl), (d_dims d); cbn; rewrite ?app_nil_r; try reflexivity.
+  intros [H|[H|H]]; try discriminate. now rewrite H.
+Qed.
+
+(* ------------------------------------------------------------------------------------------ *)
+(* no sharing after the copies of exitComponent_clause (636-640)                               *)
+(* ------------------------------------------------------------------------------------------ *)
+Lemma copy_syms_fresh ss : forall n,
+  Forall (fun s => n <= s_pid s /\ n <= s_did s /\ n <= s_tid s) (fst (copy_syms ss n))
+  /\ NoDup (map s_pid (fst (copy_syms ss n))) /\ NoDup (map s_did (fst (copy_syms ss n)))
+  /\ NoDup (map s_tid (fst (copy_syms ss n))).
+Proof.
+  induction ss as [|s r IH]; intros n; cbn [copy_syms].
+  - cbn. repeat split; constructor.
+  - rewrite fst_let. destruct (IH (3 + n)) as (F & N1 & N2 & N3). cbn [map set_ids s_pid s_did s_tid].
+    assert (F' : Forall (fun s => n <= s_pid s /\ n <= s_did s /\ n <= s_tid s) (fst (copy_syms r (3 + n))))
+      by (eapply Forall_impl; [|exact F]; cbn; intros; lia).
+    repeat split.
+    + constructor; [cbn; lia|exact F'].
+    + constructor; [|exact N1]. rewrite in_map_iff. intros (x & E & Hx). rewrite Forall_forall in F. specialize (F x Hx). lia.
+    + constructor; [|exact N2]. rewrite in_map_iff. intros (x & E & Hx). rewrite Forall_forall in F. specialize (F x Hx). lia.
+    + constructor; [|exact N3]. rewrite in_map_iff. intros (x & E & Hx). rewrite Forall_forall in F. specialize (F x Hx). lia.
+Qed.
+
+(* the first symbol keeps the clause's objects, every later one gets fresh copies: pairwise distinct *)
+Theorem tail_copy_no_sharing s0 tl n :
+  s_pid s0 < n -> s_did s0 < n -> s_tid s0 < n ->
+  NoDup (map s_pid (fst (tail_copy (s0 :: tl) n))) /\ NoDup (map s_did (fst (tail_copy (s0 :: tl) n)))
+  /\ NoDup (map s_tid (fst (tail_copy (s0 :: tl) n))).
+Proof.
+  intros H1 H2 H3. unfold tail_copy. rewrite fst_let. cbn [map].
+  destruct (copy_syms_fresh tl n) as (F & N1 & N2 & N3). rewrite Forall_forall in F.
+  repeat split; (constructor; [|assumption]); rewrite in_map_iff; intros (x & E & Hx); specialize (F x Hx); lia.
+Qed.
+
+Lemma close_clause_tail v cl D0 ss n :
+  exists ss2 n2, fst (close_clause v cl D0 ss n) = fst (tail_copy ss2 n2) /\ length ss2 = length ss.
+Proof.
+  unfold close_clause.
+  destruct (match c_dims cl with
+            | Some subs => if v_dimsmerge v then merge_dims D0 n subs (map (set_type (c_type cl)) ss) (S n)
+                           else (map (set_dims n [subs]) (map (set_type (c_type cl)) ss), S n)
+            | None => (map (set_type (c_type cl)) ss, n) end) as [ss2 n2] eqn:E.
+  exists ss2, n2. split; [reflexivity|].
+  destruct (c_dims cl); [destruct (v_dimsmerge v)|]; try (injection E as <- _; now rewrite ?map_length).
+  clear -E. revert ss2 n2 E. generalize (S n). induction ss as [|s r IH]; intros k ss2 n2 E; cbn [map merge_dims] in E.
+  - now injection E as <- _.
+  - destruct (Nat.eqb (s_did (set_type (c_type cl) s)) D0).
+    + destruct (merge_dims D0 n l (map (set_type (c_type cl)) r) k) eqn:E2. injection E as <- _. cbn. f_equal. eapply IH; eauto.
+    + destruct (merge_dims D0 n l (map (set_type (c_type cl)) r) (S k)) eqn:E2. injection E as <- _. cbn. f_equal. eapply IH; eauto.
+Qed.
+
+(* ------------------------------------------------------------------------------------------ *)
+(* witnesses                                                                                  *)
+(* ------------------------------------------------------------------------------------------ *)
+Definition dcl (n : string) := mkD n None None "".
+Definition real1 (n : string) := EComp (mkC [] ["Real"] None [dcl n]).
+(* model M public Real a; protected Real b; public Real c; end M; *)
+Definition vis_witness : element :=
+  ECls "model" "M" "" [(Unl, []); (Pub, [real1 "a"]); (Pro, [real1 "b"]); (Pub, [real1 "c"])] [] [].
+(* model M Real[2] x[3]; end M; *)
+Definition dims_witness : element :=
+  ECls "model" "M" "" [(Unl, [EComp (mkC [] ["Real"] (Some ["2"]) [mkD "x" (Some ["3"]) None ""])])] [] [].
+
+Definition vis_of_first (r : result (list oclass)) : list (string * vis) :=
+  match r with Ok (c :: _) => map (fun s => (s_name s, s_vis s)) (o_syms c) | _ => [] end.
+Definition dims_of_first (r : result (list oclass)) : list (list (list expr)) :=
+  match r with Ok (c :: _) => map s_dims (o_syms c) | _ => [] end.
+
+Lemma vis_refuted :
+  vis_of_first (run_file head_variant [vis_witness]) = [("a", Private); ("b", Protected); ("c", Public)]
+  /\ vis_of_first (run_file repaired_variant [vis_witness]) = [("a", Public); ("b", Protected); ("c", Public)].
+Proof. split; vm_compute; reflexivity. Qed.
+
+Lemma dims_refuted :
+  dims_of_first (run_file head_variant [dims_witness]) = [[["2"]]]
+  /\ dims_of_first (run_file repaired_variant [dims_witness]) = [[["3"; "2"]]].
+Proof. split; vm_compute; reflexivity. Qed.
+
+(* a class with prefixes, clause and declarator dimensions, a modification with a declaration value, three
+   sections, a nested class, extends, import, initial and non-initial sections *)
+Definition example_class : element :=
+  ECls "model" "M" "doc"
+    [(Unl, [EComp (mkC ["parameter"; "input"] ["Real"] (Some ["2"])
+                       [mkD "a" None (Some (Modif (Some [Arg "start" (Some (Modif None (Some "1")))]) (Some "3"))) "c";
+                        mkD "b" None None ""]);
+            EExt ["Base"] (Some [Arg "k" (Some (Modif None (Some "2")))]);
+            EImp (ImpQual ["Lib"; "X"])]);
+     (Pub, [EComp (mkC [] ["Integer"] None [mkD "i" (Some ["4"]) None ""]);
+            ECls "record" "R" "" [(Unl, [real1 "a"])] [] []]);
+     (Pro, [real1 "p"])]
+    [(false, ["(= a b)"]); (true, ["(= a 1)"]); (false, ["(= i 2)"])] [(true, ["(:= b 2)"])].
+
+Lemma example_ok :
+  exists own nested st',
+    do_element head_variant [] example_class (mkK [] [] [], mkL 0 false 0) = Ok ((ROther, own :: nested), st')
+    /\ map s_name (o_syms own) = ["a"; "b"; "i"; "p"]
+    /\ map s_order (o_syms own) = [0; 1; 3; 5]
+    /\ map s_vis (o_syms own) = [Private; Private; Public; Protected]
+    /\ map s_prefixes (o_syms own) = [["parameter"; "input"]; ["parameter"; "input"]; []; []]
+    /\ o_eqs own = ["(= a b)"; "(= i 2)"] /\ o_ieqs own = ["(= a 1)"]
+    /\ NoDup (map s_pid (o_syms own)) /\ NoDup (map s_did (o_syms own)) /\ NoDup (map s_tid (o_syms own))
+    /\ length nested = 1 /\ labels_once [(Unl, tt); (Pub, tt); (Pro, tt)] = true.
+Proof.
+  eexists; eexists; eexists. split; [vm_compute; reflexivity|].
+  repeat split; try reflexivity; cbn; repeat constructor; cbn; intuition discriminate.
 Qed.
